@@ -242,6 +242,41 @@ Proof.
   reflexivity.
 Qed.
 
+(* ---- strings.HasSuffix(addr, ":") ---- *)
+Lemma last_app_ne {A} (a p : list A) d : p <> [] -> last (a ++ p) d = last p d.
+Proof.
+  intros Hp. induction a as [|x a IH]; [reflexivity|].
+  cbn [app]. destruct (a ++ p) eqn:E; [destruct a; [contradiction|discriminate]|].
+  cbn [last]. exact IH.
+Qed.
+Lemma last_in_ne {A} (p : list A) d : p <> [] -> In (last p d) p.
+Proof.
+  induction p as [|x p IH]; intros H; [contradiction|].
+  destruct p as [|y p]; [left; reflexivity|]. right. apply IH. discriminate.
+Qed.
+Lemma has_false_not_in c p : has c p = false -> ~ In c p.
+Proof.
+  intros H Hin. unfold has in H.
+  assert (existsb (N.eqb c) p = true) by (apply existsb_exists; exists c; split; [exact Hin|apply N.eqb_refl]).
+  congruence.
+Qed.
+Lemma ends_colon_app a p : p <> [] -> ends_colon (a ++ p) = ends_colon p.
+Proof.
+  intros Hp. unfold ends_colon. rewrite (last_app_ne a p 0%N Hp).
+  destruct (a ++ p) eqn:E; [destruct a; [contradiction|discriminate]|].
+  destruct p; [contradiction|reflexivity].
+Qed.
+Lemma ends_colon_clean p : has c_colon p = false -> ends_colon p = false.
+Proof.
+  intros H. destruct p as [|x p]; [reflexivity|]. unfold ends_colon.
+  destruct (N.eqb_spec (last (x :: p) 0%N) c_colon) as [E|]; [|reflexivity].
+  exfalso. apply (has_false_not_in _ _ H). rewrite <- E. apply last_in_ne. discriminate.
+Qed.
+Lemma ends_colon_port a p : p <> [] -> has c_colon p = false -> ends_colon (a ++ p) = false.
+Proof. intros Hp Hc. rewrite (ends_colon_app a p Hp). exact (ends_colon_clean p Hc). Qed.
+Lemma ends_colon_snoc a : ends_colon (a ++ [c_colon]) = true.
+Proof. rewrite ends_colon_app by discriminate. reflexivity. Qed.
+
 (* ---- ensure_port on each form ---- *)
 Lemma ensure_no_colon h n :
   has c_colon h = false -> has c_lbr h = false ->
@@ -253,13 +288,26 @@ Qed.
 
 Lemma ensure_host_port h p n :
   has c_colon h = false -> has c_lbr h = false ->
-  has c_colon p = false -> has c_lbr p = false ->
+  p <> [] -> has c_colon p = false -> has c_lbr p = false ->
   ensure_port (h ++ c_colon :: p) n = h ++ c_colon :: p.
 Proof.
-  intros Hc Hl Pc Pl. unfold ensure_port.
+  intros Hc Hl Pn Pc Pl. unfold ensure_port.
   rewrite no_lbr_prefix by (rewrite has_app, has_cons, Hl, Pl; reflexivity).
   rewrite count_app. cbn [count]. rewrite N.eqb_refl.
-  rewrite (count_absent _ _ Hc), (count_absent _ _ Pc). reflexivity.
+  rewrite (count_absent _ _ Hc), (count_absent _ _ Pc). cbn [Nat.add].
+  change (h ++ c_colon :: p) with (h ++ [c_colon] ++ p). rewrite app_assoc.
+  rewrite (ends_colon_port _ p Pn Pc). reflexivity.
+Qed.
+
+(* "host:" - an empty port is no port (repaired) *)
+Lemma ensure_empty_port h n :
+  has c_colon h = false -> has c_lbr h = false ->
+  ensure_port (h ++ [c_colon]) n = h ++ c_colon :: itoa n.
+Proof.
+  intros Hc Hl. unfold ensure_port.
+  rewrite no_lbr_prefix by (rewrite has_app, has_cons, Hl; reflexivity).
+  rewrite count_app. cbn [count]. rewrite N.eqb_refl, (count_absent _ _ Hc). cbn [Nat.add].
+  rewrite ends_colon_snoc, <- app_assoc. reflexivity.
 Qed.
 
 Lemma ensure_bracketed x n :
@@ -279,10 +327,10 @@ Proof.
 Qed.
 
 Lemma ensure_bracketed_port x p n :
-  has c_colon p = false -> has c_rbr p = false ->
+  p <> [] -> has c_colon p = false -> has c_rbr p = false ->
   ensure_port (c_lbr :: x ++ c_rbr :: c_colon :: p) n = c_lbr :: x ++ c_rbr :: c_colon :: p.
 Proof.
-  intros Pc Pr. unfold ensure_port.
+  intros Pn Pc Pr. unfold ensure_port.
   change (has_prefix [c_lbr] (c_lbr :: x ++ c_rbr :: c_colon :: p)) with true. cbv iota.
   assert (Ei : last_index c_colon (c_lbr :: x ++ c_rbr :: c_colon :: p) = len x + 2).
   { replace (c_lbr :: x ++ c_rbr :: c_colon :: p)
@@ -294,7 +342,30 @@ Proof.
   { change (c_lbr :: x ++ c_rbr :: c_colon :: p) with ((c_lbr :: x) ++ c_rbr :: c_colon :: p).
     rewrite last_index_hit, len_cons; [lia|]. rewrite has_cons, Pr. reflexivity. }
   rewrite Ei, Er.
-  destruct (len x + 2 <=? len x + 1) eqn:E; [apply Z.leb_le in E; lia|reflexivity].
+  destruct (len x + 2 <=? len x + 1) eqn:E; [apply Z.leb_le in E; lia|].
+  replace (c_lbr :: x ++ c_rbr :: c_colon :: p) with ((c_lbr :: x ++ [c_rbr; c_colon]) ++ p)
+    by (cbn [app]; rewrite <- app_assoc; reflexivity).
+  rewrite (ends_colon_port _ p Pn Pc). reflexivity.
+Qed.
+
+(* "[v6]:" - an empty port is no port (repaired) *)
+Lemma ensure_bracketed_empty_port x n :
+  ensure_port (c_lbr :: x ++ [c_rbr; c_colon]) n = c_lbr :: x ++ c_rbr :: c_colon :: itoa n.
+Proof.
+  unfold ensure_port.
+  change (has_prefix [c_lbr] (c_lbr :: x ++ [c_rbr; c_colon])) with true. cbv iota.
+  assert (Ei : last_index c_colon (c_lbr :: x ++ [c_rbr; c_colon]) = len x + 2).
+  { replace (c_lbr :: x ++ [c_rbr; c_colon]) with ((c_lbr :: x ++ [c_rbr]) ++ c_colon :: [])
+      by (cbn [app]; rewrite <- app_assoc; reflexivity).
+    rewrite last_index_hit by reflexivity. rewrite len_cons, len_app. change (len [c_rbr]) with 1. lia. }
+  assert (Er : last_index c_rbr (c_lbr :: x ++ [c_rbr; c_colon]) = len x + 1).
+  { change (c_lbr :: x ++ [c_rbr; c_colon]) with ((c_lbr :: x) ++ c_rbr :: [c_colon]).
+    rewrite last_index_hit, len_cons; [lia|reflexivity]. }
+  rewrite Ei, Er.
+  destruct (len x + 2 <=? len x + 1) eqn:E; [apply Z.leb_le in E; lia|].
+  replace (c_lbr :: x ++ [c_rbr; c_colon]) with ((c_lbr :: x ++ [c_rbr]) ++ [c_colon])
+    by (cbn [app]; rewrite <- app_assoc; reflexivity).
+  rewrite ends_colon_snoc. cbn [app]. rewrite <- !app_assoc. reflexivity.
 Qed.
 
 Lemma ensure_bare_v6 x n :
@@ -324,8 +395,8 @@ Lemma T2 h p n : name_or_v4 h = true -> port_ok p = true ->
   split_host_port (ensure_port (h ++ c_colon :: p) n) = SplitOk h p.
 Proof.
   intros H P. apply name_or_v4_inv in H as (_ & Hc & Hl & Hr).
-  apply port_ok_inv in P as (_ & Pc & Pl & Pr).
-  rewrite (ensure_host_port h p n Hc Hl Pc Pl). split; [reflexivity|]. apply split_plain; assumption.
+  apply port_ok_inv in P as (Pn & Pc & Pl & Pr).
+  rewrite (ensure_host_port h p n Hc Hl Pn Pc Pl). split; [reflexivity|]. apply split_plain; assumption.
 Qed.
 
 Lemma T3 x n : v6 x = true ->
@@ -342,8 +413,8 @@ Lemma T4 x p n : v6 x = true -> port_ok p = true ->
   split_host_port (ensure_port (c_lbr :: x ++ c_rbr :: c_colon :: p) n) = SplitOk x p.
 Proof.
   intros H P. apply v6_inv in H as (_ & Xl & Xr).
-  apply port_ok_inv in P as (_ & Pc & Pl & Pr).
-  rewrite (ensure_bracketed_port x p n Pc Pr). split; [reflexivity|].
+  apply port_ok_inv in P as (Pn & Pc & Pl & Pr).
+  rewrite (ensure_bracketed_port x p n Pn Pc Pr). split; [reflexivity|].
   apply split_bracketed; assumption.
 Qed.
 
@@ -596,25 +667,47 @@ Lemma no_lbr_prefix_app a t :
   has_prefix [c_lbr] a = false -> has_prefix [c_lbr] (a ++ c_colon :: t) = false.
 Proof. destruct a as [|x a]; intros H; [reflexivity|exact H]. Qed.
 
+Lemma itoa_nonempty n : itoa n <> [].
+Proof. exact (proj1 (port_ok_inv _ (itoa_port_ok n))). Qed.
+
+Lemma ends_colon_itoa a n : ends_colon (a ++ itoa n) = false.
+Proof. apply ends_colon_port; [apply itoa_nonempty|exact (proj1 (itoa_inv n))]. Qed.
+
+Lemma has_prefix_app_ne p a t : a <> [] -> has_prefix [p] (a ++ t) = has_prefix [p] a.
+Proof. destruct a as [|x a]; intros H; [contradiction|reflexivity]. Qed.
+
 Lemma ensure_port_idem a n m : ensure_port (ensure_port a n) m = ensure_port a n.
 Proof.
   pose proof (itoa_inv n) as (Pc & Pl & Pr).
+  assert (Ecol : forall b, ends_colon (b ++ c_colon :: itoa n) = false).
+  { intros b. change (b ++ c_colon :: itoa n) with (b ++ [c_colon] ++ itoa n).
+    rewrite app_assoc. apply ends_colon_itoa. }
   unfold ensure_port at 2 3.
   destruct (has_prefix [c_lbr] a) eqn:Hp.
-  - destruct (last_index c_colon a <=? last_index c_rbr a) eqn:Ht.
+  - assert (Hne : a <> []) by (intros ->; discriminate).
+    destruct (last_index c_colon a <=? last_index c_rbr a) eqn:Ht.
     + unfold ensure_port.
-      assert (Hp' : has_prefix [c_lbr] (a ++ c_colon :: itoa n) = true).
-      { destruct a as [|x a]; [discriminate|exact Hp]. }
-      rewrite Hp', (last_index_hit c_colon a (itoa n) Pc).
+      rewrite (has_prefix_app_ne c_lbr a _ Hne), Hp, (last_index_hit c_colon a (itoa n) Pc).
       rewrite last_index_app_absent by (rewrite has_cons, Pr; reflexivity).
       pose proof (last_index_bounds c_rbr a) as Hb.
-      destruct (len a <=? last_index c_rbr a) eqn:E; [apply Z.leb_le in E; lia|reflexivity].
-    + unfold ensure_port. rewrite Hp, Ht. reflexivity.
+      destruct (len a <=? last_index c_rbr a) eqn:E; [apply Z.leb_le in E; lia|].
+      rewrite Ecol. reflexivity.
+    + destruct (ends_colon a) eqn:He.
+      * unfold ensure_port.
+        rewrite (has_prefix_app_ne c_lbr a _ Hne), Hp.
+        rewrite !last_index_app_absent by assumption. rewrite Ht, ends_colon_itoa. reflexivity.
+      * unfold ensure_port. rewrite Hp, Ht, He. reflexivity.
   - destruct (count c_colon a) as [|[|k]] eqn:Hc.
     + unfold ensure_port. rewrite (no_lbr_prefix_app a (itoa n) Hp).
-      rewrite count_app. cbn [count]. rewrite N.eqb_refl, Hc, (count_absent _ _ Pc). reflexivity.
-    + unfold ensure_port. rewrite Hp, Hc. reflexivity.
-    + apply ensure_bracketed_port; assumption.
+      rewrite count_app. cbn [count]. rewrite N.eqb_refl, Hc, (count_absent _ _ Pc). cbn [Nat.add].
+      rewrite Ecol. reflexivity.
+    + destruct (ends_colon a) eqn:He.
+      * assert (Hne : a <> []) by (intros ->; discriminate).
+        unfold ensure_port. rewrite (has_prefix_app_ne c_lbr a _ Hne), Hp.
+        rewrite count_app, Hc, (count_absent _ _ Pc). cbn [Nat.add].
+        rewrite ends_colon_itoa. reflexivity.
+      * unfold ensure_port. rewrite Hp, Hc, He. reflexivity.
+    + apply ensure_bracketed_port; [apply itoa_nonempty|assumption|assumption].
 Qed.
 
 Lemma itoa_no_slashes n : has_prefix [c_slash; c_slash] (itoa n) = false.
@@ -636,46 +729,41 @@ Lemma dial_srv_bracketed_v6 x n :
   v6 x = true -> dials (ensure_port (c_lbr :: x ++ [c_rbr]) n) x (itoa n).
 Proof. intros H. rewrite (proj1 (T3 x n H)). exact (dial_T4 x (itoa n) H (itoa_port_ok n)). Qed.
 
-(* ---- "host:" / "[v6]:" - a separator with an EMPTY port: not one of the property's
-   forms (port_ok excludes it).  The transports keep it as it is (net.Dial then
-   resolves the empty port to 0), the certificate checker reads it as "no port" and
-   dials 5222: the two disagree. ---- *)
-Lemma index_present c s : (1 <= count c s)%nat -> 0 <= index c s.
-Proof.
-  induction s as [|x s IH]; cbn [count index]; [lia|].
-  destruct (N.eqb x c); [lia|]. intros H. cbn [Nat.add] in H. specialize (IH H).
-  destruct (index c s <? 0) eqn:E; [apply Z.ltb_lt in E; lia|lia].
-Qed.
-
-Lemma empty_port_name h : name_or_v4 h = true ->
-  client_transport (h ++ [c_colon]) = Tcp (h ++ [c_colon]) /\
-  component_transport (h ++ [c_colon]) = Tcp (h ++ [c_colon]) /\
-  split_host_port (h ++ [c_colon]) = SplitOk h [] /\
-  checker_params (h ++ [c_colon]) = Some (h ++ c_colon :: itoa 5222, h).
+(* ---- "host:" / "[v6]:" - a separator with an EMPTY port is no port (REPAIRED, hunt2
+   C20/f1): transports and certificate checker agree, all dial host:5222 ---- *)
+Lemma T_empty_name h n : name_or_v4 h = true ->
+  ensure_port (h ++ [c_colon]) n = h ++ c_colon :: itoa n /\
+  split_host_port (ensure_port (h ++ [c_colon]) n) = SplitOk h (itoa n).
 Proof.
   intros H. apply name_or_v4_inv in H as (_ & Hc & Hl & Hr).
-  assert (Es : scheme_prefixed (h ++ [c_colon]) = false) by (apply not_scheme_host_port; [exact Hc|reflexivity]).
-  assert (Ee : ensure_port (h ++ [c_colon]) 5222 = h ++ [c_colon]) by (apply ensure_host_port; auto).
-  assert (Ep : split_host_port (h ++ [c_colon]) = SplitOk h []) by (apply split_plain; auto).
-  unfold client_transport, component_transport, checker_params. rewrite Es, Ee, Ep.
-  repeat split. unfold join_host_port. rewrite (index_absent _ _ Hc). reflexivity.
+  pose proof (itoa_inv n) as (Pc & Pl & Pr).
+  rewrite (ensure_empty_port h n Hc Hl). split; [reflexivity|]. apply split_plain; assumption.
+Qed.
+Lemma T_empty_bracketed x n : v6 x = true ->
+  ensure_port (c_lbr :: x ++ [c_rbr; c_colon]) n = c_lbr :: x ++ c_rbr :: c_colon :: itoa n /\
+  split_host_port (ensure_port (c_lbr :: x ++ [c_rbr; c_colon]) n) = SplitOk x (itoa n).
+Proof.
+  intros H. apply v6_inv in H as (_ & Xl & Xr).
+  pose proof (itoa_inv n) as (Pc & Pl & Pr).
+  rewrite ensure_bracketed_empty_port. split; [reflexivity|]. apply split_bracketed; assumption.
 Qed.
 
-Lemma empty_port_bracketed x : v6 x = true ->
-  client_transport (c_lbr :: x ++ [c_rbr; c_colon]) = Tcp (c_lbr :: x ++ [c_rbr; c_colon]) /\
-  component_transport (c_lbr :: x ++ [c_rbr; c_colon]) = Tcp (c_lbr :: x ++ [c_rbr; c_colon]) /\
-  split_host_port (c_lbr :: x ++ [c_rbr; c_colon]) = SplitOk x [] /\
-  checker_params (c_lbr :: x ++ [c_rbr; c_colon]) = Some (c_lbr :: x ++ c_rbr :: c_colon :: itoa 5222, x).
+Lemma dial_empty_name h : name_or_v4 h = true -> dials (h ++ [c_colon]) h default_port.
 Proof.
-  intros H. apply v6_inv in H as (Hc & Xl & Xr).
-  assert (Ee : ensure_port (c_lbr :: x ++ [c_rbr; c_colon]) 5222 = c_lbr :: x ++ [c_rbr; c_colon])
-    by (apply (ensure_bracketed_port x [] 5222); reflexivity).
-  assert (Ep : split_host_port (c_lbr :: x ++ [c_rbr; c_colon]) = SplitOk x [])
-    by (apply (split_bracketed x []); auto).
-  unfold client_transport, component_transport, checker_params.
-  rewrite not_scheme_bracketed, Ee, Ep. repeat split.
-  unfold join_host_port. pose proof (index_present c_colon x ltac:(lia)) as Hi.
-  apply Z.leb_le in Hi. rewrite Hi. reflexivity.
+  intros H. apply dials_intro; [|exact (proj2 (T_empty_name h 5222 H))].
+  apply name_or_v4_inv in H as (_ & Hc & _). apply not_scheme_host_port; [exact Hc|reflexivity].
+Qed.
+Lemma dial_empty_bracketed x : v6 x = true -> dials (c_lbr :: x ++ [c_rbr; c_colon]) x default_port.
+Proof.
+  intros H. apply dials_intro; [apply not_scheme_bracketed|exact (proj2 (T_empty_bracketed x 5222 H))].
+Qed.
+Lemma check_empty_name h : name_or_v4 h = true -> checks (h ++ [c_colon]) h default_port.
+Proof.
+  intros H. apply checks_intro; [exact (proj2 (T_empty_name h 5222 H))|exact default_port_nonempty].
+Qed.
+Lemma check_empty_bracketed x : v6 x = true -> checks (c_lbr :: x ++ [c_rbr; c_colon]) x default_port.
+Proof.
+  intros H. apply checks_intro; [exact (proj2 (T_empty_bracketed x 5222 H))|exact default_port_nonempty].
 Qed.
 
 (* ---- every Connect of one transport object dials the same, given address ---- *)
